@@ -9,6 +9,7 @@ import (
 	"encoding/hex"
 	"errors"
 	"fmt"
+	"io"
 	"io/fs"
 	"net/mail"
 	"os"
@@ -20,6 +21,7 @@ import (
 	"time"
 
 	"github.com/ProtonMail/go-crypto/openpgp"
+	"github.com/ProtonMail/go-crypto/openpgp/armor"
 	"github.com/ProtonMail/go-crypto/openpgp/clearsign"
 	"github.com/ProtonMail/go-crypto/openpgp/packet"
 	"github.com/goreleaser/nfpm/v2"
@@ -126,12 +128,16 @@ func GenC10(verifSeed uint64, run int) *Scenario {
 			matrixEnv[k] = v
 		}
 	}
-	for _, key := range []string{"pgp_a", "pgp_b", "pgp_c"} {
+	// (key F: made by gpg, the primary key can only certify, a subkey signs)
+	for _, key := range []string{"pgp_a", "pgp_b", "pgp_c", "pgp_f"} {
 		for _, ext := range []string{".asc", ".gpg"} {
 			w.Tree = append(w.Tree, TreeEntry{Path: "keys/m-" + key + ext, Kind: "file", KeyRef: key + ext, Mode: 0o600, MTime: 1500000000})
 			ids := []string{"", keyID(key)}
 			if key == "pgp_c" {
 				ids = append(ids, keyID("pgp_c.sub"))
+			}
+			if key == "pgp_f" {
+				ids = []string{"", keyID("pgp_f.sub")}
 			}
 			for _, id := range ids {
 				setSig := func(s map[string]any) {
@@ -162,14 +168,45 @@ func GenC10(verifSeed uint64, run int) *Scenario {
 			}
 		}
 	}
-	// key D: a subkeys-only export (gpg --export-secret-subkeys) of the unprotected key E: the
-	// primary secret key is a GNU dummy stub, only the signing subkey can
-	// sign. Detached signatures (debsign, rpm) work through the subkey;
-	// dpkg-sig clear-signs with the primary key, which cannot sign: that must
-	// fail loudly and typed, never yield a package.
+	// a key id that is not a key id, and one that names no key of the file: no
+	// key can be selected, signing fails (whatever the method)
+	for _, bad := range [][2]string{{"not-hex", "0xDEADBEEF"}, {"not-hex", "my signing key"}, {"absent-from-key-file", "0123456789abcdef"}} {
+		kind, val := bad[0], bad[1]
+		for _, method := range []string{"", "dpkg-sig"} {
+			m2 := method
+			plan.Cases = append(plan.Cases, Case{Format: "deb", Class: "keyid", Invalid: kind, Env: matrixEnv, Config: variant(func(m map[string]any) {
+				sg := subMap(subMap(m, "deb"), "signature")
+				sg["key_file"] = "@SRC@keys/m-pgp_a.asc"
+				sg["key_id"] = val
+				delete(sg, "type")
+				delete(sg, "method")
+				if m2 != "" {
+					sg["method"] = m2
+				}
+			})})
+		}
+		plan.Cases = append(plan.Cases, Case{Format: "rpm", Class: "keyid", Invalid: kind, Env: matrixEnv, Config: variant(func(m map[string]any) {
+			sg := subMap(subMap(m, "rpm"), "signature")
+			sg["key_file"] = "@SRC@keys/m-pgp_a.asc"
+			sg["key_id"] = val
+		})})
+	}
+	// apk signs with RSA keys only: a key file that holds another kind of
+	// private key (PKCS#8 allows any) cannot produce an apk signature
+	plan.Cases = append(plan.Cases, Case{Format: "apk", Class: "keyfile", Invalid: "not-rsa", FS: &FSFault{Path: keyPath["apk"], Kind: "replace", KeyRef: "ec_a.pkcs8.priv"}})
+	// key D: a subkeys-only export (gpg --export-secret-subkeys) of the
+	// unprotected key E: the primary secret key is a GNU dummy stub, only the
+	// signing subkey can sign. Every method signs through the subkey (no key
+	// id, or the subkey's); asking for the primary key by its id cannot work
+	// and must fail loudly and typed, never yield a package (for dpkg-sig that
+	// failure surfaces when the clear-signer is closed).
 	w.Tree = append(w.Tree, TreeEntry{Path: "keys/m-pgp_d.asc", Kind: "file", KeyRef: "pgp_d.asc", Mode: 0o600, MTime: 1500000000})
-	for _, id := range []string{"", keyID("pgp_d.sub")} {
+	for _, id := range []string{"", keyID("pgp_d.sub"), keyID("pgp_d")} {
 		idd := id
+		class, invalid := "clean", ""
+		if id == keyID("pgp_d") {
+			class, invalid = "cannotsign", "primary-key-of-a-subkeys-only-file"
+		}
 		setD := func(s map[string]any) {
 			s["key_file"] = "@SRC@keys/m-pgp_d.asc"
 			delete(s, "key_id")
@@ -179,13 +216,13 @@ func GenC10(verifSeed uint64, run int) *Scenario {
 			delete(s, "method")
 			delete(s, "type")
 		}
-		plan.Cases = append(plan.Cases, Case{Format: "deb", Class: "clean", Key: "pgp_d", Env: matrixEnv, Config: variant(func(m map[string]any) {
+		plan.Cases = append(plan.Cases, Case{Format: "deb", Class: class, Invalid: invalid, Key: "pgp_d", Env: matrixEnv, Config: variant(func(m map[string]any) {
 			setD(subMap(subMap(m, "deb"), "signature"))
 		})})
-		plan.Cases = append(plan.Cases, Case{Format: "rpm", Class: "clean", Key: "pgp_d", Env: matrixEnv, Config: variant(func(m map[string]any) {
+		plan.Cases = append(plan.Cases, Case{Format: "rpm", Class: class, Invalid: invalid, Key: "pgp_d", Env: matrixEnv, Config: variant(func(m map[string]any) {
 			setD(subMap(subMap(m, "rpm"), "signature"))
 		})})
-		plan.Cases = append(plan.Cases, Case{Format: "deb", Class: "cannotsign", Invalid: "dpkg-sig-with-subkeys-only-key", Key: "pgp_d", Env: matrixEnv, Config: variant(func(m map[string]any) {
+		plan.Cases = append(plan.Cases, Case{Format: "deb", Class: class, Invalid: invalid, Key: "pgp_d", Env: matrixEnv, Config: variant(func(m map[string]any) {
 			sg := subMap(subMap(m, "deb"), "signature")
 			setD(sg)
 			sg["method"] = "dpkg-sig"
@@ -255,6 +292,61 @@ func debSigOf(cfgText string) debSigCfg {
 	return out
 }
 
+// keyIDOf: the key id configured for the format's key file ("" = none).
+func keyIDOf(cfgText, format string) string {
+	var m map[string]any
+	yaml.Unmarshal([]byte(cfgText), &m)
+	normalizeSig(m)
+	d, _ := m[format].(map[string]any)
+	s, _ := d["signature"].(map[string]any)
+	switch v := s["key_id"].(type) {
+	case string:
+		return strings.ToLower(v)
+	case int:
+		return fmt.Sprint(v)
+	}
+	return ""
+}
+
+// issuerOf: the id of the key that issued an OpenPGP signature (armored or not).
+func issuerOf(sig []byte) (string, bool) {
+	var r io.Reader = bytes.NewReader(sig)
+	if bytes.HasPrefix(bytes.TrimSpace(sig), []byte("-----BEGIN")) {
+		blk, err := armor.Decode(bytes.NewReader(sig))
+		if err != nil {
+			return "", false
+		}
+		r = blk.Body
+	}
+	pr := packet.NewReader(r)
+	for {
+		p, err := pr.Next()
+		if err != nil {
+			return "", false
+		}
+		if sg, ok := p.(*packet.Signature); ok && sg.IssuerKeyId != nil {
+			return fmt.Sprintf("%016x", *sg.IssuerKeyId), true
+		}
+	}
+}
+
+// checkIssuer: with a key id configured, the signature is issued by that key.
+func checkIssuer(fail func(string, ...any), what, cfgText, format string, calls [][]byte, sig []byte) {
+	want := keyIDOf(cfgText, format)
+	if want == "" || calls != nil {
+		return
+	}
+	for len(want) < 16 {
+		want = "0" + want
+	}
+	got, ok := issuerOf(sig)
+	if !ok {
+		fail("%s: cannot read the issuer of the signature", what)
+	} else if got != want {
+		fail("%s is issued by key %s, but key id %s is configured", what, got, want)
+	}
+}
+
 func apkKeyNameOf(cfgText string) string {
 	var m map[string]any
 	yaml.Unmarshal([]byte(cfgText), &m)
@@ -309,6 +401,12 @@ func verifySigned(w *World, cfgText, format string, pkg []byte, calls [][]byte, 
 				fail("dpkg-sig clear signature does not verify: %v", err)
 			} else {
 				verified++
+			}
+			// (verification consumed the signature reader: decode once more)
+			if b2, _ := clearsign.Decode(last.Data); b2 != nil && b2.ArmoredSignature != nil {
+				if sigBytes, err := io.ReadAll(b2.ArmoredSignature.Body); err == nil {
+					checkIssuer(fail, "dpkg-sig clear signature", cfgText, "deb", calls, sigBytes)
+				}
 			}
 			if p, ran := gpgvVerify(strings.Replace(pubPGP, ".asc", ".gpg", 1), nil, last.Data); ran {
 				if p != "" {
@@ -370,6 +468,7 @@ func verifySigned(w *World, cfgText, format string, pkg []byte, calls [][]byte, 
 		} else {
 			verified++
 		}
+		checkIssuer(fail, "debsign signature", cfgText, "deb", calls, last.Data)
 		if p, ran := gpgvVerify(strings.Replace(pubPGP, ".asc", ".gpg", 1), signed, last.Data); ran {
 			if p != "" {
 				fail("debsign signature does not verify: %s", p)
@@ -400,6 +499,12 @@ func verifySigned(w *World, cfgText, format string, pkg []byte, calls [][]byte, 
 			fail("rpm header-only signature does not verify over the header: %v", err)
 		} else {
 			verified++
+		}
+		if ok1 {
+			checkIssuer(fail, "rpm header-only signature", cfgText, "rpm", calls, hs)
+		}
+		if ok2 {
+			checkIssuer(fail, "rpm header+payload signature", cfgText, "rpm", calls, bs)
 		}
 		if !ok2 {
 			fail("rpm signature header has no header+payload signature (tag 1002)")
@@ -713,6 +818,8 @@ func problemGroup(p string) string {
 	switch {
 	case strings.Contains(p, "signature entry is") || strings.Contains(p, "signature member is"):
 		return "signature-placement"
+	case strings.Contains(p, "is issued by key"):
+		return "issued-by-another-key"
 	case strings.Contains(p, "signing callback"):
 		return "callback-bytes"
 	case strings.Contains(p, "does not verify"):
